@@ -50,11 +50,64 @@ pub fn universe_events(out: &mut Out, vals: &[Value]) {
     }
 }
 
+/// The same abstract value in its other in-memory representation: every grid's absent meta becomes an empty meta and vice
+/// versa, likewise every column's meta. The data model (and the codecs) identify the two; whatever equality makes of
+/// them, Hash and the orders have to agree with it.
+pub fn other_representation(v: &Value) -> Value {
+    use libhaystack::val::{Dict, Grid, List};
+    fn flip(m: &Option<Dict>) -> Option<Dict> {
+        match m {
+            None => Some(Dict::default()),
+            Some(d) if d.is_empty() => None,
+            Some(d) => Some(d.iter().map(|(k, x)| (k.clone(), other_representation(x))).collect::<std::collections::BTreeMap<_, _>>().into()),
+        }
+    }
+    match v {
+        Value::List(l) => Value::make_list(l.iter().map(other_representation).collect::<List>()),
+        Value::Dict(d) => {
+            let mut n = Dict::default();
+            for (k, x) in d.iter() {
+                n.insert(k.clone(), other_representation(x));
+            }
+            Value::make_dict(n)
+        }
+        Value::Grid(g) => {
+            let mut n: Grid = g.clone();
+            n.meta = flip(&g.meta);
+            for (c, o) in n.columns.iter_mut().zip(g.columns.iter()) {
+                c.meta = flip(&o.meta);
+            }
+            for (r, o) in n.rows.iter_mut().zip(g.rows.iter()) {
+                let mut d = Dict::default();
+                for (k, x) in o.iter() {
+                    d.insert(k.clone(), other_representation(x));
+                }
+                *r = d;
+            }
+            Value::make_grid(n)
+        }
+        other => other.clone(),
+    }
+}
+
+fn with_variants(vals: Vec<Value>, max: usize) -> Vec<Value> {
+    let mut out = vals.clone();
+    let mut added = 0;
+    for v in &vals {
+        let o = other_representation(v);
+        if format!("{:?}", o) != format!("{:?}", v) && added < max {
+            out.push(o);
+            added += 1;
+        }
+    }
+    out
+}
+
 pub fn run(vec: &J, out: &mut Out) -> Result<(), String> {
     match vec["op"].as_str().unwrap_or("") {
         "ord.universe" => {
             let vals: Vec<Value> = vec["values"].as_array().ok_or("values")?.iter().map(gamma).collect::<Result<_, _>>()?;
-            universe_events(out, &vals);
+            universe_events(out, &with_variants(vals, usize::MAX));
             Ok(())
         }
         _ => Err("unknown ord op".into()),
@@ -78,6 +131,6 @@ pub fn rec(out: &mut Out, seed: u64, n: usize) {
             let c = vals[i * 3].clone();
             vals.push(c);
         }
-        universe_events(out, &vals);
+        universe_events(out, &with_variants(vals, 12));
     }
 }
